@@ -116,26 +116,39 @@ mod verif_extdata {
         kani::cover!(!allowed);
     }
 
-    /// Concrete adversarial and well-formed locations (incl. the longer recognised extensions).
-    const SAMPLES: [&str; 18] = [
-        "m.data", "m.onnx_data_1", "m.onnx.data", "m.data/", "m.data/.",
-        "../m.data", "/m.data", "d/m.data", "m.data/..", "d/../m.data", "./../m.data",
-        "m.data/x", "..data/../m", ".data",
-        "m.txt", "m.xdata", "data", "m.",
-    ];
-
-    #[kani::proof]
-    #[kani::unwind(20)]
-    pub fn path_predicate_samples() {
+    /// Concrete adversarial and well-formed locations (incl. the longer recognised extensions),
+    /// in three groups to keep each CBMC run small.
+    fn check_samples<const N: usize>(samples: [&str; N]) -> usize {
         let mut n_allowed = 0;
         let mut i = 0;
-        while i < SAMPLES.len() {
-            if check_predicate(SAMPLES[i].as_bytes()) {
+        while i < N {
+            if check_predicate(samples[i].as_bytes()) {
                 n_allowed += 1;
             }
             i += 1;
         }
-        kani::cover!(n_allowed >= 3);
+        n_allowed
+    }
+
+    #[kani::proof]
+    #[kani::unwind(15)]
+    pub fn path_predicate_samples_wellformed() {
+        let n = check_samples(["m.data", "m.onnx_data_1", "m.onnx.data", "m.data/", "m.data/.", "m.txt"]);
+        kani::cover!(n >= 3);
+    }
+
+    #[kani::proof]
+    #[kani::unwind(15)]
+    pub fn path_predicate_samples_traversal() {
+        let n = check_samples(["../m.data", "/m.data", "d/m.data", "m.data/..", "d/../m.data", "./../m.data"]);
+        kani::cover!(n == 0);
+    }
+
+    #[kani::proof]
+    #[kani::unwind(15)]
+    pub fn path_predicate_samples_names() {
+        let n = check_samples(["m.data/x", "..data/../m", ".data", "m.xdata", "data", "m."]);
+        kani::cover!(n == 0);
     }
 
     // ------------------------------------------------------------------ loaders
